@@ -25,6 +25,7 @@ pub struct Norm {
     pub str_params: Vec<String>,
     pub into_vec: Vec<String>,
     pub iter_on: Vec<String>,
+    pub keyed_mut_iter: Vec<(String, String, String)>,
     lvalue_depth: usize,
     tmp_counter: usize,
 }
@@ -248,6 +249,13 @@ impl Norm {
             str_params: strs("str_params"),
             into_vec: strs("into_vec"),
             iter_on: strs("iter_on"),
+            keyed_mut_iter: strs("keyed_mut_iter")
+                .iter()
+                .filter_map(|x| {
+                    let p: Vec<&str> = x.split(':').collect();
+                    if p.len() == 3 { Some((p[0].to_string(), p[1].to_string(), p[2].to_string())) } else { None }
+                })
+                .collect(),
             lvalue_depth: 0,
             tmp_counter: 0,
         }
@@ -636,9 +644,46 @@ impl VisitMut for Norm {
             }
             _ => visit_mut::visit_expr_mut(self, e),
         }
+        // N8e: `for P in R.values_mut_like() { B }` => iterate a snapshot of the keys and fetch each value mutably
+        if let Expr::ForLoop(f) = e {
+            if let Expr::MethodCall(mc) = &*f.expr {
+                let name = mc.method.to_string();
+                if let Some((_, keys_fn, getter)) = self.keyed_mut_iter.iter().find(|(m, _, _)| *m == name).cloned() {
+                    let sp = f.for_token.span;
+                    let recv = mc.receiver.clone();
+                    let pat = f.pat.clone();
+                    let body_stmts = f.body.stmts.clone();
+                    let keys_fn = Ident::new(&keys_fn, sp);
+                    let getter = Ident::new(&getter, sp);
+                    let kv = self.fresh("keys");
+                    let k = self.fresh("k");
+                    let ne: Expr = parse_quote!({
+                        let #kv = #keys_fn(&*#recv);
+                        for #k in #kv.iter() {
+                            let #pat = #recv.#getter(*#k);
+                            #(#body_stmts)*
+                        }
+                    });
+                    *e = ne;
+                    self.log("N8e-keyed-mut-iteration", sp);
+                    return;
+                }
+            }
+        }
         // post-order rewrites
         match e {
             Expr::ForLoop(f) => {
+                // N18: Verus' for-loops have no `continue`: `if c { A; continue; } REST` => `if c { A } else { REST }`
+                if block_has_continue(&f.body) {
+                    let sp = f.for_token.span;
+                    match eliminate_continue(std::mem::take(&mut f.body.stmts)) {
+                        Ok(st) => {
+                            f.body.stmts = st;
+                            self.log("N18-continue-to-else", sp);
+                        }
+                        Err(e) => self.errors.push(e),
+                    }
+                }
                 // N7b: `for &x in E { B }` => `for x in E { let x = *x; B }`
                 if let Pat::Reference(pr) = &*f.pat {
                     if pr.mutability.is_none() {
@@ -745,6 +790,15 @@ impl VisitMut for Norm {
                             self.log("N3-unwrap_or_else-panic", sp);
                         }
                     }
+                    "collect" if mc.args.is_empty() && matches!(&*mc.receiver, Expr::MethodCall(i) if i.method == "into_iter" && i.args.is_empty()) => {
+                        // N8i: SET.into_iter().collect() (into a Vec) => hq_set_into_vec(SET)
+                        if let Expr::MethodCall(inner) = &*mc.receiver {
+                            let x = &inner.receiver;
+                            let ne: Expr = parse_quote!(hq_set_into_vec(#x));
+                            *e = ne;
+                            self.log("N8i-set-into_iter-collect", sp);
+                        }
+                    }
                     "collect" if mc.args.is_empty() && is_copied_iter(&mc.receiver) => {
                         // N8h: ITER.copied().collect() (into a Vec) => push loop
                         if let Expr::MethodCall(inner) = &*mc.receiver {
@@ -833,6 +887,31 @@ impl VisitMut for Norm {
                                 let ne: Expr = parse_quote!(hq_map_push(&mut #m, #k, #x));
                                 *e = ne;
                                 self.log("N8g-entry-or_default-push", sp);
+                            }
+                        }
+                    }
+                    "retain" if mc.args.len() == 1 => {
+                        // N8: V.retain(|p| B) => index loop with the same visiting order and the same survivors
+                        if let Expr::Closure(c) = &mc.args[0] {
+                            if c.inputs.len() == 1 && !body_has_return(&c.body) {
+                                let v = &mc.receiver;
+                                let body = &c.body;
+                                let i = self.fresh("i");
+                                let keep = self.fresh("keep");
+                                let bind: Stmt = match &c.inputs[0] {
+                                    Pat::Ident(pi) => { let id = &pi.ident; parse_quote!(let #id = &#v[#i];) }
+                                    Pat::Reference(r) => { let inner = &r.pat; parse_quote!(let #inner = #v[#i];) }
+                                    other => { let o = other; parse_quote!(let #o = &#v[#i];) }
+                                };
+                                let ne: Expr = parse_quote!({
+                                    let mut #i: usize = 0;
+                                    while #i < #v.len() {
+                                        let #keep = { #bind #body };
+                                        if #keep { #i += 1; } else { #v.remove(#i); }
+                                    }
+                                });
+                                *e = ne;
+                                self.log("N8-retain-to-index-loop", sp);
                             }
                         }
                     }
@@ -991,6 +1070,70 @@ pub fn map_vec_type(t: &Type) -> Option<Type> {
         }
     }
     None
+}
+
+fn block_has_continue(b: &Block) -> bool {
+    struct V(bool);
+    impl<'ast> syn::visit::Visit<'ast> for V {
+        fn visit_expr_continue(&mut self, _: &'ast ExprContinue) {
+            self.0 = true;
+        }
+        fn visit_expr_for_loop(&mut self, _: &'ast ExprForLoop) {}
+        fn visit_expr_while(&mut self, _: &'ast ExprWhile) {}
+        fn visit_expr_loop(&mut self, _: &'ast ExprLoop) {}
+        fn visit_expr_closure(&mut self, _: &'ast ExprClosure) {}
+    }
+    let mut v = V(false);
+    syn::visit::Visit::visit_block(&mut v, b);
+    v.0
+}
+
+fn eliminate_continue(stmts: Vec<Stmt>) -> std::result::Result<Vec<Stmt>, String> {
+    let mut out = vec![];
+    let mut iter = stmts.into_iter();
+    while let Some(st) = iter.next() {
+        let is_if_continue = match &st {
+            Stmt::Expr(Expr::If(i), _) => {
+                i.else_branch.is_none()
+                    && matches!(i.then_branch.stmts.last(), Some(Stmt::Expr(Expr::Continue(c), _)) if c.label.is_none())
+            }
+            _ => false,
+        };
+        if is_if_continue {
+            if let Stmt::Expr(Expr::If(mut i), _) = st {
+                i.then_branch.stmts.pop();
+                if block_has_continue(&i.then_branch) {
+                    return Err("unsupported `continue` shape (nested)".into());
+                }
+                let rest: Vec<Stmt> = iter.collect();
+                let rest = eliminate_continue(rest)?;
+                let els: Block = Block { brace_token: Default::default(), stmts: rest };
+                i.else_branch = Some((Default::default(), Box::new(Expr::Block(ExprBlock { attrs: vec![], label: None, block: els }))));
+                out.push(Stmt::Expr(Expr::If(i), None));
+                return Ok(out);
+            }
+        } else {
+            if let Stmt::Expr(e, _) = &st {
+                struct V(bool);
+                impl<'ast> syn::visit::Visit<'ast> for V {
+                    fn visit_expr_continue(&mut self, _: &'ast ExprContinue) {
+                        self.0 = true;
+                    }
+                    fn visit_expr_for_loop(&mut self, _: &'ast ExprForLoop) {}
+                    fn visit_expr_while(&mut self, _: &'ast ExprWhile) {}
+                    fn visit_expr_loop(&mut self, _: &'ast ExprLoop) {}
+                    fn visit_expr_closure(&mut self, _: &'ast ExprClosure) {}
+                }
+                let mut v = V(false);
+                syn::visit::Visit::visit_expr(&mut v, e);
+                if v.0 {
+                    return Err("unsupported `continue` shape".into());
+                }
+            }
+            out.push(st);
+        }
+    }
+    Ok(out)
 }
 
 fn is_entry_or_default(e: &Expr) -> bool {
